@@ -4,6 +4,7 @@ import (
 	"fmt"
 	"io"
 	netmail "net/mail"
+	"strconv"
 	"strings"
 	"time"
 
@@ -591,8 +592,10 @@ func (c *Client) handleFetch(seqNum uint32) error {
 						return fmt.Errorf("in section-spec: %v", err)
 					}
 				case "BINARY":
-					part, dot := readSectionPart(dec)
-					if dot {
+					part, dot, err := readSectionPart(dec)
+					if err != nil {
+						return fmt.Errorf("in section-binary: %v", err)
+					} else if dot {
 						return fmt.Errorf("in section-binary: expected number after dot")
 					}
 					if !dec.ExpectSpecial(']') {
@@ -660,8 +663,10 @@ func (c *Client) handleFetch(seqNum uint32) error {
 			if !dec.ExpectSpecial('[') {
 				return dec.Err()
 			}
-			part, dot := readSectionPart(dec)
-			if dot {
+			part, dot, err := readSectionPart(dec)
+			if err != nil {
+				return fmt.Errorf("in section-binary: %v", err)
+			} else if dot {
 				return fmt.Errorf("in section-binary: expected number after dot")
 			}
 
@@ -1117,8 +1122,14 @@ func readBodyFldLang(dec *imapwire.Decoder) ([]string, error) {
 func readSectionSpec(dec *imapwire.Decoder) (*imap.FetchItemBodySection, error) {
 	var section imap.FetchItemBodySection
 
-	var dot bool
-	section.Part, dot = readSectionPart(dec)
+	var (
+		dot bool
+		err error
+	)
+	section.Part, dot, err = readSectionPart(dec)
+	if err != nil {
+		return nil, err
+	}
 	if dot || len(section.Part) == 0 {
 		var specifier string
 		if dot {
@@ -1188,19 +1199,30 @@ func readHeaderList(dec *imapwire.Decoder) ([]string, error) {
 	return l, err
 }
 
-func readSectionPart(dec *imapwire.Decoder) (part []int, dot bool) {
+func readSectionPart(dec *imapwire.Decoder) (part []int, dot bool, err error) {
 	for {
 		dot = len(part) > 0
 		if dot && !dec.Special('.') {
-			return part, false
+			return part, false, nil
 		}
 
-		var num uint32
-		if !dec.Number(&num) {
-			return part, dot
+		// Decoder.Number cannot be used here: it consumes the digits of a number
+		// which doesn't fit and then reports "no number", like it does when
+		// there are no digits at all
+		var digits string
+		if !dec.Func(&digits, isDigit) {
+			return part, dot, nil
+		}
+		num, err := strconv.ParseUint(digits, 10, 32)
+		if err != nil {
+			return nil, false, fmt.Errorf("in section-part: %v", err)
 		}
 		part = append(part, int(num))
 	}
+}
+
+func isDigit(ch byte) bool {
+	return ch >= '0' && ch <= '9'
 }
 
 type fetchLiteralReader struct {
